@@ -579,5 +579,7 @@ def apply_fault(msg, fault):
         for off, hx in fault['ops']:
             bb = bytes.fromhex(hx)
             m[off:off + len(bb)] = bb
+        if fault.get('cut') is not None:
+            del m[fault['cut']:]        # the input ends inside the data section
         return bytes(m)
     raise ValueError(fault)
